@@ -39,7 +39,15 @@ extern "C" void cappuccino_verif_before_lock(const void*)
     if (ctl::my_tid >= 0)
         ctl::yield();
 }
-extern "C" void cappuccino_verif_after_unlock(const void*) {}
+namespace ctl
+{
+bool yield_after_unlock = false; // per scenario: also a scheduling point right after mutex::unlock()
+}
+extern "C" void cappuccino_verif_after_unlock(const void*)
+{
+    if (ctl::my_tid >= 0 && ctl::yield_after_unlock)
+        ctl::yield();
+}
 
 struct Rec
 {
@@ -54,6 +62,7 @@ struct Scenario
     int64_t                      now = 0;
     std::vector<Op>              pre;
     std::vector<std::vector<Op>> progs;
+    bool                         unlock_yield = false;
     std::vector<Op>              post; // sequential calls after all threads finished, each at its own clock reading
 };
 
@@ -64,8 +73,9 @@ using C = typename Sel<int64_t, thread_safe::yes>::type;
 static bool run_once(const Scenario& sc, const std::vector<int>& choices, std::vector<int>& chosen,
                      std::vector<std::vector<int>>& runnable, std::string& line)
 {
-    vclock::now_ns = sc.now;
-    C* c           = make<C>(sc.cfg);
+    vclock::now_ns          = sc.now;
+    ctl::yield_after_unlock = sc.unlock_yield;
+    C* c                    = make<C>(sc.cfg);
     for (const Op& o : sc.pre)
         (void)apply<C, int64_t>(*c, o);
     const int nt = static_cast<int>(sc.progs.size());
@@ -237,6 +247,12 @@ int main(int argc, char** argv)
             std::string opw;
             ls >> opw; // "op"
             sc.pre.push_back(parse_op(ls));
+        }
+        else if (w == "unlockyield")
+        {
+            int v;
+            ls >> v;
+            sc.unlock_yield = v != 0;
         }
         else if (w == "post")
         {
